@@ -96,7 +96,8 @@ def layout_form(prefix, tsuf, rsuf, style, target_first, ref_kind, with_cells=Tr
         extras = [Row("q", "select_one_external ext", "refx", {"label": "x", "choice_filter": f"state={R} and cf = {R}"})]
     elif ref_kind == "calc":
         rq = Row("q", "calculate", "refq", {"calculation": f"{R} + indexed-repeat({R}, /data/x, 1) + ${{last-saved#{tname}}}",
-                                            "relevant": f"instance('{lst}')/root/item[name = {R}]/label != '' and pulldata('f', 'a', 'b', {R})"})
+                                            "relevant": (f'instance("{lst}")/root/item[name = {R}]/label != "" and pulldata("f", "a", "b", {R})' if style == "adv" else  # either quote style delimits an XPath string
+                                                         f"instance('{lst}')/root/item[name = {R}]/label != '' and pulldata('f', 'a', 'b', {R})")})
     elif ref_kind == "group":
         rq = Row("group", "begin group", "refq", {"label": f"G {R}", "relevant": f"{R} > 0"}, [
             Row("q", "text", "inner", {"label": f"in {R}"}),
@@ -133,6 +134,11 @@ def layout_form(prefix, tsuf, rsuf, style, target_first, ref_kind, with_cells=Tr
         base.extend([rb] + tail + [tb])
     if extras:
         f.external_choices = [{"list_name": "ext", "name": "e1", "label": "E1", "state": "s1", "cf": "1"}, {"list_name": "ext", "name": "e2", "label": "E2", "state": "s2", "cf": "2"}]
+    if style in ("plain", "adv") and (len(prefix) + len(tsuf) + len(rsuf)) % 2 == 1:
+        # questions elsewhere in the form that carry the names of the repeats (legal: they are not siblings): a repeat stays a repeat
+        reps = [r.name for r, _ in f.walk() if r.kind == "repeat" and r.name != "refq"]
+        if reps:
+            f.survey.append(Row("group", "begin group", "shadow_zone", {"label": "S"}, [Row("q", "integer", nm, {"label": "shadow"}) for nm in reps]))
     if style == "case":
         # a decoy whose name differs from the target's only by case, elsewhere in the form: no reference may land on it
         f.survey.append(Row("group", "begin group", "decoy_zone", {"label": "D"}, [Row("q", "integer", tname.lower(), {"label": "decoy"})]))
@@ -238,7 +244,7 @@ class Judge:
                 # select-from-repeat: predicate paths starting './' are item-relative (resolved against the source repeat)
                 res = resolve_relative(itemrel_repeat, rel)
             else:
-                if need_current and not anchored:
+                if (need_current or _in_instance_predicate(source, pos)) and not anchored:
                     self.ctx.viol(f"{cellkind}:relative-not-anchored-with-current", f"${{{name}}} in {cellkind} of {owner_entry.path} became {got!r}: a relative path inside a secondary-instance predicate must start with current()/", self.wit(cell=cellkind))
                 res = resolve_relative(ctxp, rel)
             self.ctx.ctr("relative_paths")
@@ -286,6 +292,29 @@ def _in_indexed_repeat(source, pos):
     for m in re.finditer(r"indexed-repeat\([^)]*\)", source):
         if m.start() <= pos < m.end():
             return True
+    return False
+
+
+def _in_instance_predicate(source, pos):
+    """Is the reference at `pos` inside a [...] predicate applied to an instance('x') / instance("x") path?"""
+    for m in re.finditer(r"""instance\(\s*(?:'[^']*'|"[^"]*")\s*\)""", source):
+        i = m.end()
+        # walk the location path that follows the call; every [ ... ] met on the way is a predicate over the secondary instance
+        while i < len(source):
+            c = source[i]
+            if c == "[":
+                depth, j = 1, i + 1
+                while j < len(source) and depth:
+                    depth += source[j] == "["
+                    depth -= source[j] == "]"
+                    j += 1
+                if i < pos < j:
+                    return True
+                i = j
+            elif c.isalnum() or c in "/_-.:*@":
+                i += 1
+            else:
+                break
     return False
 
 
